@@ -98,6 +98,15 @@ pub fn cases(tier: &str) -> Vec<Case> {
                             for h in histories(pk, tier) {
                                 out.push(Case { sc: sc.clone(), goal_rng, hist: h, fault: None });
                             }
+                            // a problem with THREE start states (whatever a planner does with the others is a
+                            // function of the seed, not of the thread generator)
+                            if w.name == "subset0001" && bias == 0.05 {
+                                let mut sc3 = sc.clone();
+                                sc3.extra_starts = vec![b.alphabet[b.sub3[1] as usize].clone(), b.alphabet[b.sub3[2] as usize].clone()];
+                                sc3.tag = format!("{}/three-starts", sc.tag);
+                                let h = if pk == Pk::Prm { vec![Op::Setup, Op::Construct(12), Op::Solve(1), Op::Setup, Op::Construct(12), Op::Solve(1)] } else { vec![Op::Setup, Op::Solve(12), Op::Setup, Op::Solve(12), Op::Solve(6)] };
+                                out.push(Case { sc: sc3, goal_rng, hist: h, fault: None });
+                            }
                             // a narrow rotation cone (long runs of rejected draws inside the space's sampler):
                             // a rarely taken branch of a sampler must draw from the seeded generator too
                             if kit == "SO3" && w.name == "subset0001" && bias == 0.05 {
